@@ -119,7 +119,6 @@ def harnesses(tier, seed):
         for term, ty, cv in (("find", "E", (1, 1, 1)), ("find", "M", (1, 1, 1)), ("count", "MF", (1, 0, 1)), ("reduce", "M", (1, 1, 1)),
                              ("first", "FM", (0, 1, 1)), ("for_each", "M", (1, 1, 1))):
             hs.append(h(term, ty, 3, 2, 1, "sym", cv))
-        hs.append(h("find", "F", 3, 2, 2, "sym", (1, 1, 1)))
     else:
         light, heavy = [], []
         for ty in ("M", "F", "MF", "FM", "FMF", "FL", "FLF"):
